@@ -14,6 +14,8 @@
 //   (header: max_nesting).  "drain": bare handler, sink 100 ms per message, producer 0 queues <per> messages, a stopper thread
 //   calls resetOwnThread(), 200 ms later producer 1 logs one message: that call must return at once (maxcall_us) and the
 //   message must still be delivered by the logger thread.  Header: quotas=<per-producer message counts>.
+//   In drain mode a non-zero <stall ms> is the sink's time PER MESSAGE instead of 100 ms (a long backlog: <per> x <stall ms>
+//   of sink work is queued when resetOwnThread() is called; every message must still reach the sink, in order).
 // Texts: every 9th message carries a leading / embedded / trailing U+0000.  line = index * 64 + producer.
 // input line:  <mode> <producers> <messages each> <seed> <perturb 0..3> <sinkdelay 0..2> [<stall ms>]
 //   stall: the sink sleeps that long once, inside its first delivery (a stalled sink); the header reports the longest
@@ -223,7 +225,8 @@ int main(int argc, char **argv)
                 };
             if (mode == "drain") {
                 n = 2; quotas = { per, 1 };
-                g_slow_ms = 100;
+                g_slow_ms = g_stall_ms > 0 ? g_stall_ms : 100;
+                g_stalled = true;       // no one-off stall in this mode
                 tl_prod = 0;
                 for (int i = 0; i < per; i++) { std::string tw; tl_idx = i; bare_send(0, i, tw); twin[0].push_back(tw); }
                 tl_prod = -1;
